@@ -252,6 +252,7 @@ type exitRec struct {
 	where   string
 	panicV  Value
 	kind    string // return | panic | noreturn-call
+	blk     *ssa.BasicBlock // the block of the return instruction (names of its scope resolve there)
 }
 
 // Frame is one activation of a function under symbolic execution.
@@ -753,7 +754,7 @@ func (f *Frame) run(st0 *State, args []Value) *RunResult {
 			for _, r := range t.Results {
 				rs = append(rs, f.val(r))
 			}
-			f.rets = append(f.rets, exitRec{st: st, results: rs, where: f.where(t), kind: "return"})
+			f.rets = append(f.rets, exitRec{st: st, results: rs, where: f.where(t), kind: "return", blk: t.Block()})
 		case *ssa.Panic:
 			if f.panicHook != nil {
 				f.panicHook(st, "panic", t)
@@ -834,7 +835,7 @@ func (f *Frame) flow(in map[*ssa.BasicBlock][]*edgeIn, from, to *ssa.BasicBlock,
 			for _, r := range ret.Results {
 				rs = append(rs, f.val(r))
 			}
-			f.rets = append(f.rets, exitRec{st: st, results: rs, where: f.where(ret), kind: "return"})
+			f.rets = append(f.rets, exitRec{st: st, results: rs, where: f.where(ret), kind: "return", blk: ret.Block()})
 			return
 		}
 	}
